@@ -451,6 +451,16 @@ def run_lens_direct(rec, case):
                 vals.append(fscalar(L.lens_log_likelihood(C, **kws)))
             np.random.seed(11)
             L.sigma_v_measured_vs_predict(C, kwargs_lens=kl, kwargs_kin=kk, kwargs_los=klos)
+            if scal:
+                # a history with a FAILED evaluation in it: the sampler proposes a mean outside the interpolation grid (hierArc raises
+                # ValueError, as documented), the caller carries on with the same dictionaries
+                a_ok = kk["a_ani"]; kk["a_ani"] = float(AX_A[-1]) + 5.0
+                try:
+                    np.random.seed(11); L.lens_log_likelihood(C, **kws)
+                    rec.tally("out_of_grid_mean_did_not_raise")
+                except ValueError:
+                    rec.tally("history_with_failed_evaluation")
+                kk["a_ani"] = a_ok
             np.random.seed(11)
             vals.append(fscalar(L.lens_log_likelihood(C, **kws)))
         except Exception as e:
